@@ -165,6 +165,10 @@ type CallInfo struct {
 	// hook's error — a publish that took effect but reported failure (e.g. the
 	// directory fsync after the rename failed).
 	FailAfter bool
+	// CorruptRead (Read only, set by a Before hook that returns nil): the call
+	// succeeds but one bit of the returned data is flipped — storage that
+	// silently corrupts, to be caught by the format's checksums.
+	CorruptRead bool
 }
 
 type CallRec struct {
@@ -445,6 +449,9 @@ func (r *traceReader) Read(p []byte) (int, error) {
 		return 0, err
 	}
 	n, err := r.r.Read(p)
+	if ci.CorruptRead && n > 0 {
+		p[n/2] ^= 0x10
+	}
 	if n > 0 {
 		r.t.mu.Lock()
 		r.h.Ranges = append(r.h.Ranges, [2]int64{r.h.pos, r.h.pos + int64(n)})
